@@ -71,6 +71,10 @@ func semRun(c *Ctx, flavour string, n int, prop string) {
 			src = gen.TryProgram(r)
 		case "tailcall":
 			src = gen.TailCallProgram(r)
+		case "callbind":
+			src = gen.CallBindProgram(i)
+		case "closures":
+			src = gen.ClosureChainProgram(r)
 		default:
 			src = gen.Program(r, semProgOpts(r, flavour))
 		}
@@ -88,12 +92,20 @@ func semRun(c *Ctx, flavour string, n int, prop string) {
 		implNo := runPlain(bcNo, ugo.Map{}, args)
 		cls := strings.SplitN(strings.TrimPrefix(implNo, "out="), " ", 2)[0]
 		c.Count("outcome:" + cls)
+		if strings.HasPrefix(implNo, "out=timeout") {
+			c.Count("skipped:step-limit")
+			continue
+		}
+		if strings.Contains(implNo, codec.Cyclic) {
+			c.Count("skipped:cyclic-value")
+			continue
+		}
 		if mapOrderSensitive(implNo) {
 			// text derived from Go map iteration order (String() of a map with several keys)
 			c.Count("skipped:map-order")
 			continue
 		}
-		if strings.Contains(implNo, "StackOverflow") || strings.HasPrefix(implNo, "out=panic") {
+		if strings.Contains(implNo, "StackOverflow") || (strings.HasPrefix(implNo, "out=panic") && strings.Contains(implNo, "with length 2048")) {
 			// value-stack exhaustion is a VM limit the reference semantics does not have
 			c.Count("skipped:vm-limit")
 			continue
@@ -106,12 +118,18 @@ func semRun(c *Ctx, flavour string, n int, prop string) {
 			if err != nil {
 				// the optimizer may only refuse with the runtime error of a constant sub-expression
 				if !strings.Contains(err.Error(), "Optimizer Error") {
-					c.Violation(PropViolation{"C01", "optimizer on: compile fails with a non-optimizer error: " + firstLine(err.Error()), src, "C01:opt-compile-error"})
+					c.Violation(PropViolation{"C01", "optimizer on: compile fails with a non-optimizer error: " + semFirstLine(err.Error()), src, "C01:opt-compile-error"})
 				}
 				c.Count("opt-refused")
 				continue
 			}
 			implOpt := runPlain(bcOpt, ugo.Map{}, args)
+			if strings.HasPrefix(implOpt, "out=timeout") {
+				// the step bound counts VM instructions; an optimized program executes fewer, so
+				// only the unoptimized run decides whether the case is within the bound
+				c.Count("skipped:step-limit-opt")
+				continue
+			}
 			if implOpt != implNo {
 				c.Violation(PropViolation{"C01", fmt.Sprintf("optimized (limit %d) and unoptimized runs differ: %s  vs  %s", lim, implOpt, implNo), src + "\nargs: " + strings.Join(encodeAll(args), ";"), "C01:opt-differs"})
 			}
@@ -168,19 +186,47 @@ func encodeAll(xs []ugo.Object) []string {
 	return r
 }
 
-func firstLine(s string) string { return strings.SplitN(s, "\n", 2)[0] }
+func semFirstLine(s string) string { return strings.SplitN(s, "\n", 2)[0] }
 
 func init() {
 	register(&Stream{
 		Name: "sem",
 		Skip: vmSkip,
+		Replay: func(line string) (string, error) {
+			// sem <fuel> <ast> <globals> <args;...> #<hex of the source>
+			f := strings.Split(line, "\t")
+			if len(f) < 6 || !strings.HasPrefix(f[len(f)-1], "#") {
+				return "", fmt.Errorf("bad sem line")
+			}
+			src, err := semHexDecode(strings.TrimPrefix(f[len(f)-1], "#"))
+			if err != nil {
+				return "", err
+			}
+			var args []ugo.Object
+			if f[4] != "" {
+				for _, a := range strings.Split(f[4], ";") {
+					o, err := codec.Decode(a, func(tn string, id int) ugo.Object { return ugo.Undefined })
+					if err != nil {
+						return "", err
+					}
+					args = append(args, o)
+				}
+			}
+			bc, err := ugo.Compile(src, ugo.CompilerOptions{NoOptimize: true})
+			if err != nil {
+				return "", err
+			}
+			return runPlain(bc, ugo.Map{}, args), nil
+		},
 		Run: func(c *Ctx) {
-			c.Rule("random scripts (gen.Program; flavours: general, try-heavy, call-heavy) run by the implementation (compiler+VM, optimizer off) vs the reference semantics Spec/Sem on the same AST: outcome and final globals (side-effect log); also optimizer on at limits {default,1,3} vs off (C01); distinct = distinct (outcome class, outcome hash)")
+			c.Rule("random scripts (gen.Program; flavours: general, try-heavy, call-heavy, try enumeration, self tail calls, the complete call-binding enumeration (params 0..3 x variadic x explicit args 0..4 x spread none/0..4 x 5 call positions), chains of sibling closures) run by the implementation (compiler+VM, optimizer off) vs the reference semantics Spec/Sem on the same AST: outcome and final globals (side-effect log); also optimizer on at limits {default,1,3} vs off (C01); distinct = distinct (outcome class, outcome hash)")
 			semRun(c, "general", 700*c.Scale, "C02")
 			semRun(c, "try", 500*c.Scale, "C03")
 			semRun(c, "calls", 300*c.Scale, "C02")
 			semRun(c, "tryenum", 1500*c.Scale, "C03")
 			semRun(c, "tailcall", 300*c.Scale, "C02")
+			semRun(c, "callbind", gen.NumCallBindPrograms, "C02")
+			semRun(c, "closures", 200*c.Scale, "C02")
 		},
 	})
 }
